@@ -25,11 +25,14 @@ def main():
     tier = "quick"
     props = None
     repo = "/repo"
+    base = "seeded"
     ids = []
     i = 0
     while i < len(args):
         if args[i] == "--tier":
             tier = args[i + 1]; i += 1
+        elif args[i] == "--base":   # "benign": behaviour-preserving changes, every check must exit 0
+            base = args[i + 1]; i += 1
         elif args[i] == "--repo":
             repo = args[i + 1]; i += 1
         elif args[i] == "--props":
@@ -42,10 +45,10 @@ def main():
     # evidence of runs against a patched tree must not replace the evidence of the real tree
     env = dict(os.environ, VERIF_REPO=repo, VERIF_EVIDENCE_DIR=os.environ.get("VERIF_EVIDENCE_DIR", "/tmp/seed-evidence"))
     for sid in ids:
-        d = os.path.join(V, "seeded", sid)
+        d = os.path.join(V, base, sid)
         meta = json.load(open(d + "/meta.json"))
-        target = meta["target_property"]
-        todo = props or companions(target)
+        target = meta.get("target_property")
+        todo = props or meta.get("checks") or companions(target)
         if subprocess.run(["git", "-C", repo, "diff", "--quiet"]).returncode != 0:
             print(repo + " is dirty; abort"); sys.exit(2)
         if subprocess.run(["git", "-C", repo, "apply", d + "/patch.diff"]).returncode != 0:
